@@ -304,3 +304,108 @@ func Prop(name string) pbt.Prop[Case] {
 		Check: check,
 	}
 }
+
+// ---------------------------------------------------------------------------
+// deep nesting: up to the depth limit the conversion is exact, beyond it an error - never a crash or different bytes
+
+type DeepCase struct {
+	Depth int    `json:"depth"`
+	Via   string `json:"via"` // struct | list | map | mixed
+}
+
+const deepIDL = `struct R { 1: optional R next, 2: list<R> kids, 3: map<string,R> m, 4: i32 v }
+service Svc { R Call(1: R req) }`
+
+func deepValue(cs DeepCase, level int) *tm.Value {
+	v := &tm.Value{K: tm.STRUCT}
+	if level < cs.Depth {
+		via := cs.Via
+		if via == "mixed" {
+			via = []string{"struct", "list", "map"}[level%3]
+		}
+		child := deepValue(cs, level+1)
+		switch via {
+		case "struct":
+			v.Fields = append(v.Fields, tm.FieldVal{ID: 1, V: child})
+		case "list":
+			v.Fields = append(v.Fields, tm.FieldVal{ID: 2, V: &tm.Value{K: tm.LIST, ET: tm.STRUCT, Elems: []*tm.Value{child}}})
+		default:
+			v.Fields = append(v.Fields, tm.FieldVal{ID: 3, V: &tm.Value{K: tm.MAP, KT: tm.STRING, ET: tm.STRUCT, Keys: []*tm.Value{{K: tm.STRING, S: []byte("k")}}, Elems: []*tm.Value{child}}})
+		}
+	}
+	v.Fields = append(v.Fields, tm.FieldVal{ID: 4, V: &tm.Value{K: tm.I32, I: int64(level)}})
+	return v
+}
+
+func deepJSON(v *tm.Value, b *bytes.Buffer) {
+	b.WriteString("{")
+	for i, f := range v.Fields {
+		if i > 0 {
+			b.WriteString(",")
+		}
+		switch f.ID {
+		case 1:
+			b.WriteString(`"next":`)
+			deepJSON(f.V, b)
+		case 2:
+			b.WriteString(`"kids":[`)
+			deepJSON(f.V.Elems[0], b)
+			b.WriteString("]")
+		case 3:
+			b.WriteString(`"m":{"k":`)
+			deepJSON(f.V.Elems[0], b)
+			b.WriteString("}")
+		default:
+			fmt.Fprintf(b, `"v":%d`, f.V.I)
+		}
+	}
+	b.WriteString("}")
+}
+
+func checkDeep(c *pbt.Ctx, cs DeepCase) {
+	comp, err := tm.Compile(deepIDL, thrift.Options{})
+	if err != nil {
+		c.Failf("harness-idl", "%v", err)
+	}
+	v := deepValue(cs, 0)
+	var doc bytes.Buffer
+	deepJSON(v, &doc)
+	cv := j2t.NewBinaryConv(conv.Options{})
+	var out []byte
+	c.Step("j2t depth=%d via=%s", cs.Depth, cs.Via)
+	if !c.Protect("", func() { out, err = cv.Do(context.Background(), comp.Root, doc.Bytes()) }) {
+		return
+	}
+	if err != nil {
+		c.Class("rejected")
+		if cs.Depth < 200 {
+			c.Failf("valid-rejected", "nesting depth %d (%s) rejected: %v", cs.Depth, cs.Via, err)
+		}
+		c.NonTrivial()
+		return
+	}
+	if want := tm.Encode(v); !bytes.Equal(out, want) {
+		c.Failf("wrong-encoding", "nesting depth %d (%s): output differs from the reference encoding (%d vs %d bytes)", cs.Depth, cs.Via, len(out), len(want))
+		return
+	}
+	c.Class("converted")
+	if cs.Depth >= 8 {
+		c.NonTrivial()
+	}
+}
+
+// DeepProp returns the deep-nesting property under the given test name.
+func DeepProp(name string) pbt.Prop[DeepCase] {
+	return pbt.Prop[DeepCase]{
+		Name: name,
+		Rule: "a recursive struct (next / list / map links, or a mix) nested to a drawn depth (1..64, and around 128, 256, 1024, 2048, 4096, 8192, 20000); the conversion must give exactly the reference encoding, or - only for depths >= 200 - an error; no panic, no crash, no different bytes; non-trivial = depth >= 8",
+		Gen: func(t *rapid.T) DeepCase {
+			d := rapid.IntRange(1, 64).Draw(t, "depth")
+			if rapid.IntRange(0, 2).Draw(t, "deep") == 0 {
+				d = []int{127, 128, 129, 255, 256, 257, 1023, 1024, 1025, 1364, 1365, 1366, 2047, 2048, 2049, 4094, 4095, 4096, 4097, 8192, 20000}[rapid.IntRange(0, 20).Draw(t, "deepDepth")] + rapid.IntRange(-2, 2).Draw(t, "jitter")
+			}
+			return DeepCase{Depth: d, Via: []string{"struct", "list", "map", "mixed"}[rapid.IntRange(0, 3).Draw(t, "via")]}
+		},
+		Check: checkDeep,
+	}
+}
